@@ -2,7 +2,7 @@
 
 `C10 run <policy> <maturity>:<mtp0> <txdefs> <ops>` — the whole history on one line; the answer is one
 observation per op (`|`-separated): result class, pool ids, spend index, orphans, orphan index.
-See harness/p10/p10.go for the grammar (the Go side builds real transactions from the same line). -/
+See harness/p10/env.go and exec.go for the grammar (the Go side builds real transactions from the same line). -/
 import BV.C10.Model
 namespace BV.C10.Driver
 open BV.C10
